@@ -1654,7 +1654,7 @@ func (e *Engine) exec(fr *frame, in ssa.Instruction) {
 				e.allocGuard(e.tf.Resize(rt, 64, true), 16)
 			}
 		}
-		e.set(fr, x, &MapObj{epoch: e.epoch, kt: x.Type().Underlying().(*types.Map).Key()})
+		e.set(fr, x, &MapObj{epoch: e.epoch, kt: x.Type().Underlying().(*types.Map).Key(), vt: x.Type().Underlying().(*types.Map).Elem()})
 	case *ssa.MapUpdate:
 		m, ok := e.get(fr, x.Map).(*MapObj)
 		if !ok {
@@ -1909,6 +1909,15 @@ func (e *Engine) checkView(v Val, t types.Type) Val {
 			kt := t.Underlying().(*types.Map).Key()
 			if !shapeCompatible(m.kt, kt) {
 				e.goPanic("invalid reinterpretation: map with key type %v viewed as %v", m.kt, t)
+			}
+			// element types: interface values with and without methods are laid out
+			// differently (other element shapes are checked when an element is used)
+			if vt := t.Underlying().(*types.Map).Elem(); m.vt != nil {
+				_, ai := m.vt.Underlying().(*types.Interface)
+				_, bi := vt.Underlying().(*types.Interface)
+				if ai && bi && !shapeCompatible(m.vt, vt) {
+					e.goPanic("invalid reinterpretation: map with element type %v viewed as %v", m.vt, t)
+				}
 			}
 		}
 	}
